@@ -2,7 +2,7 @@
 //! reference unitary model written from the Quil specification tables.
 use crate::engine::*;
 use num_complex::Complex64 as C;
-use quil_rs::expression::Expression;
+use quil_rs::expression::{Expression, InfixExpression, InfixOperator, PrefixExpression, PrefixOperator};
 use quil_rs::instruction::*;
 use quil_rs::Program;
 use serde_json::{json, Value};
@@ -239,9 +239,23 @@ fn mk_gate(name: &str, p: &[f64], pl: &[u64], mods: &[GateModifier]) -> Gate {
     Gate { name: name.into(), parameters: p.iter().map(|x| Expression::Number(C::new(*x, 0.))).collect(), qubits: pl.iter().map(|q| Qubit::Fixed(*q)).collect(), modifiers: mods.to_vec() }
 }
 
-fn c14_check(name: &str, p: &[f64], pl: &[u64], n: u64) -> Vec<(String, String)> {
+/// spellings of the constant v as a parameter expression: 0 literal, 1 -(-v), 2 (v-1)+1, 3 pi*(v/pi), 4 (2*v)/2
+const FORMS: usize = 5;
+fn spell(v: f64, form: usize) -> Expression {
+    let num = |x: f64| Expression::Number(C::new(x, 0.));
+    match form {
+        1 => Expression::Prefix(PrefixExpression::new(PrefixOperator::Minus, num(-v).into())),
+        2 => Expression::Infix(InfixExpression::new(num(v - 1.0).into(), InfixOperator::Plus, num(1.0).into())),
+        3 => Expression::Infix(InfixExpression::new(Expression::PiConstant().into(), InfixOperator::Star, num(v / std::f64::consts::PI).into())),
+        4 => Expression::Infix(InfixExpression::new(num(2.0 * v).into(), InfixOperator::Slash, num(2.0).into())),
+        _ => num(v),
+    }
+}
+
+fn c14_check(name: &str, p: &[f64], pl: &[u64], n: u64, form: usize) -> Vec<(String, String)> {
     let r = catch(|| {
         let mut g = mk_gate(name, p, pl, &[]);
+        g.parameters = p.iter().map(|v| spell(*v, form)).collect();
         let u = match g.to_unitary(n) {
             Ok(u) => u,
             Err(e) => return vec![("error".to_string(), format!("to_unitary failed: {e}"))],
@@ -268,7 +282,7 @@ pub static C14: PropDef = PropDef {
     id: "C14",
     level: "exploration",
     engine: "sweep",
-    rule: "the 22 standard gates x parameter lattice {0, 0.37, pi/2, -1.1, 2pi+0.1} (thorough: 11 values) x every injective placement of the gate's qubits into n = arity..5 qubits; Gate::to_unitary(n) compared entrywise (1e-12) with the specification matrix lifted with qubit 0 as least significant bit, plus unitarity. non-trivial = every case (distinct by gate, parameter, placement, n)",
+    rule: "the 22 standard gates x parameter lattice {0, 0.37, pi/2, -1.1, 2pi+0.1} (thorough: 11 values) x every injective placement of the gate's qubits into n = arity..5 qubits, the parameter spelled as a number literal and (at n = arity; thorough: everywhere) as the constant expressions -(-v), (v-1)+1, pi*(v/pi), (2v)/2; Gate::to_unitary(n) compared entrywise (1e-12) with the specification matrix lifted with qubit 0 as least significant bit, plus unitarity. non-trivial = every case (distinct by gate, parameter, placement, n)",
     assumptions: &["reference matrices transcribed from the Quil specification (mc/src/props/gates.rs base()); finite parameter lattice, not all reals"],
     run: |ctx| {
         let lat = lattice(ctx.tier);
@@ -277,13 +291,18 @@ pub static C14: PropDef = PropDef {
                 for pl in placements(*k, n) {
                     let ps: Vec<Vec<f64>> = if *np == 1 { lat.iter().map(|x| vec![*x]).collect() } else { vec![vec![]] };
                     for p in ps {
-                        if !ctx.take(|| json!({"gate": name, "params": p, "qubits": pl, "n": n})) {
-                            continue;
-                        }
-                        ctx.nontrivial(&(name, format!("{p:?}"), &pl, n));
-                        ctx.outcome(name);
-                        for (clause, detail) in c14_check(name, &p, &pl, n) {
-                            ctx.report(viol(&clause, format!("C14:{clause}:{name}"), json!({"gate": name, "params": p, "qubits": pl, "n": n}), format!("{name}{p:?} on qubits {pl:?} of {n}: {detail}")));
+                        // constant-expression spellings of the parameter: all of them where the gate sits in
+                        // its own qubits (n = arity), the literal everywhere (thorough: all spellings everywhere)
+                        let forms = if p.is_empty() { 1 } else if n == *k as u64 || ctx.tier == Tier::Thorough { FORMS } else { 1 };
+                        for form in 0..forms {
+                            if !ctx.take(|| json!({"gate": name, "params": p, "qubits": pl, "n": n, "form": form})) {
+                                continue;
+                            }
+                            ctx.nontrivial(&(name, format!("{p:?}"), &pl, n, form));
+                            ctx.outcome(name);
+                            for (clause, detail) in c14_check(name, &p, &pl, n, form) {
+                                ctx.report(viol(&clause, format!("C14:{clause}:{name}{}", if form == 0 { String::new() } else { format!(":spelling{form}") }), json!({"gate": name, "params": p, "qubits": pl, "n": n, "form": form}), format!("{name}{p:?} (spelling {form}) on qubits {pl:?} of {n}: {detail}")));
+                            }
                         }
                     }
                 }
@@ -298,7 +317,8 @@ pub static C14: PropDef = PropDef {
         if base(name, &p).is_none() {
             return vec![];
         }
-        c14_check(name, &p, &pl, n).into_iter().map(|(cl, d)| viol(&cl, format!("C14:{cl}:{name}"), cse.clone(), d)).collect()
+        let form = cse["form"].as_u64().unwrap_or(0) as usize;
+        c14_check(name, &p, &pl, n, form).into_iter().map(|(cl, d)| viol(&cl, format!("C14:{cl}:{name}{}", if form == 0 { String::new() } else { format!(":spelling{form}") }), cse.clone(), d)).collect()
     },
     caps: (50, 3000),
 };
